@@ -905,25 +905,23 @@ def rule_r25(repo):
     flow = flow_of(f.node)
     accepts = [r for r in cfg.return_nodes() if isinstance(r.ast.value, ast.Call) and call_name(r.ast.value) == 'Thm']
     need(accepts, 'BindMacro.eval: accepting return not found')
-    # lists of variables taken from the right-hand side: appended to in a loop that opens the binders of `rhs`
-    rlists = set()
-    for n in ast.walk(f.node):
-        if isinstance(n, ast.While) and any(isinstance(a, ast.Assign) and isinstance(a.value, ast.Call) and call_attr(a.value) == 'dest_abs' and
-                                            'r_bd' in src(a.value, 40) or isinstance(a, ast.Assign) and isinstance(a.value, ast.Call) and call_attr(a.value) == 'dest_abs' and
-                                            any(p_.startswith('goal.rhs') or p_.startswith('goal.args') or p_.startswith('rhs') for p_ in flow.resolve(a.value.func.value))
-                                            for a in ast.walk(n)):
-            for c in ast.walk(n):
-                if isinstance(c, ast.Call) and call_attr(c) == 'append' and isinstance(c.func.value, ast.Name):
-                    rlists.add(c.func.value.id)
-    need(rlists, 'BindMacro.eval: the list of bound variables of the right-hand side not found')
     ok = False
+    rlists = set()
     for lp in ast.walk(f.node):
         if not isinstance(lp, ast.For):
             continue
-        itnames = {x.id for x in ast.walk(lp.iter) if isinstance(x, ast.Name)}
-        if not (itnames & rlists):
+        # the new variables: the loop variables that are compared with what the context maps an old variable to (`ctx[lv.name] != rv`)
+        tall = {x.id for x in ast.walk(lp.target) if isinstance(x, ast.Name)}
+        tnames = set()
+        for c in ast.walk(lp):
+            cp = compare_parts(c) if isinstance(c, ast.Compare) else None
+            if cp and cp[0] in (ast.Eq, ast.NotEq):
+                for x, y in ((cp[1], cp[2]), (cp[2], cp[1])):
+                    if isinstance(x, ast.Subscript) and isinstance(x.value, ast.Name) and isinstance(y, ast.Name) and y.id in tall:
+                        tnames.add(y.id)
+        if not tnames:
             continue
-        tnames = {x.id for x in ast.walk(lp.target) if isinstance(x, ast.Name)}
+        rlists |= tnames
         head = [n for n in cfg.nodes if n.kind == 'iter' and n.ast is lp]
         for t in cfg.test_nodes():
             if not any(t.ast is x for st in lp.body for x in ast.walk(st)):
@@ -942,6 +940,7 @@ def rule_r25(repo):
             before = head and all(cfg.path_avoiding(a, skip_nodes=head) is None for a in accepts)
             if about_lhs and raises and before:
                 ok = True
+    need(rlists, 'BindMacro.eval: the loop that relates old and new bound variables through the context not found')
     res.add('%s :: BindMacro.eval :: new-variables-not-free-in-lhs' % VM, ok,
             'each variable of %s is tested for occurrence in the left-hand side before the step is accepted' % '/'.join(sorted(rlists)) if ok else
             'the variables that the right-hand side binds (%s) are never tested for occurrence in the left-hand side: the renaming can capture, '
